@@ -15,7 +15,7 @@ import ast
 
 from sa import fields as F
 from sa.fields import Eval, Unrecognised, is_term, leaves, term_str, NONE, ABSENT
-from sa.astutil import dump, where, kwargs_of, walk_no_nested
+from sa.astutil import dump, where, kwargs_of, walk_no_nested, field_of
 from sa.model import body_nodoc
 from sa.vn import VN, Poly, VNUnknown, comparable
 
@@ -268,6 +268,123 @@ def check_statistics(prog, rep, K):
             rep.unrec("R4-statistics", "%s.%s" % (K.qualname, name), str(e))
 
 
+SCALED_CLASSES = [("pybrops.core.mat.DenseScaledMatrix", "DenseScaledMatrix"), ("pybrops.core.mat.DenseScaledSquareTaxaTraitMatrix", "DenseScaledSquareTaxaTraitMatrix")]
+
+
+def check_guard_order(prog, rep):
+    """R1-guard-order: wherever a scale vector gets its zeros substituted (X[X == 0] = c), every division by X / reciprocal of X comes AFTER the substitution"""
+    n = 0
+    classes = [prog.get_class(c, m) for m, c in BV + SCALED_CLASSES if m in prog.modules]
+    seen = set()
+    for K in classes:
+        for f in K.methods.values():
+            if id(f) in seen:
+                continue
+            seen.add(id(f))
+            guards = []
+            for st in walk_no_nested(f.node):
+                if isinstance(st, ast.Assign) and isinstance(st.targets[0], ast.Subscript) and isinstance(st.targets[0].value, ast.Name) and isinstance(st.targets[0].slice, ast.Compare):
+                    c = st.targets[0].slice
+                    if isinstance(c.ops[0], ast.Eq) and dump(c.left) == st.targets[0].value.id and isinstance(c.comparators[0], ast.Constant) and c.comparators[0].value == 0:
+                        guards.append((st.targets[0].value.id, st))
+            for X, gst in guards:
+                n += 1
+                rep.saw(f)
+                construct = "%s[%s]" % (f.qualname, X)
+                early = []
+                for st in walk_no_nested(f.node):
+                    if getattr(st, "lineno", 10 ** 9) >= gst.lineno or not isinstance(st, (ast.Assign, ast.AugAssign)):
+                        continue
+                    for b in ast.walk(st.value):
+                        if isinstance(b, ast.BinOp) and isinstance(b.op, ast.Div) and any(isinstance(x, ast.Name) and x.id == X for x in ast.walk(b.right)):
+                            early.append(st)
+                    if isinstance(st, ast.AugAssign) and isinstance(st.op, ast.Div) and any(isinstance(x, ast.Name) and x.id == X for x in ast.walk(st.value)):
+                        early.append(st)
+                if early:
+                    rep.violate("R1-guard-order", construct, "`%s` divides by %s BEFORE its zeros are replaced (%s): a constant trait gives 1/0 = inf, and 0 * inf = NaN in every "
+                                "entry of that trait" % (dump(early[0])[:50], X, dump(gst)[:40]), where(f, early[0]), "substitute zeros first", dump(early[0])[:50])
+                else:
+                    rep.ok("R1-guard-order", construct, "zeros of %s are substituted before anything divides by it" % X)
+    rep.floor("R1-guard-order", 2)
+
+
+def check_stat_purity(prog, rep):
+    """R5-purity: a summary statistic never updates in place a value that may BE one of the object's own arrays (location / scale / matrix)"""
+    for mod, cname in BV:
+        K = prog.get_class(cname, mod)
+        stats = [m for m in ("tmax", "tmin", "trange", "tmean", "tstd", "tvar", "targmax", "targmin") if prog.lookup_method(K, m) is not None]
+        # which statistics may hand out a field by reference
+        leaks = {}
+        for m in stats:
+            f = prog.lookup_method(K, m)
+            defs = {}
+            for st in walk_no_nested(f.node):
+                if isinstance(st, ast.Assign) and len(st.targets) == 1 and isinstance(st.targets[0], ast.Name):
+                    defs.setdefault(st.targets[0].id, []).append(st.value)
+
+            def fields(e, depth=0):
+                out = set()
+                if depth > 4:
+                    return out
+                if isinstance(e, ast.IfExp):
+                    return fields(e.body, depth + 1) | fields(e.orelse, depth + 1)
+                fl = field_of(e) if isinstance(e, ast.Attribute) else None
+                if fl is not None:
+                    out.add(fl)
+                elif isinstance(e, ast.Name):
+                    for d in defs.get(e.id, []):
+                        out |= fields(d, depth + 1)
+                return out
+            for st in walk_no_nested(f.node):
+                if isinstance(st, ast.Return) and st.value is not None:
+                    fs = fields(st.value)
+                    if fs:
+                        leaks.setdefault(m, set()).update(fs)
+        for m in stats:
+            f = prog.lookup_method(K, m)
+            if f.cls is not K and K.name != "DenseBreedingValueMatrix":
+                continue
+            rep.saw(f)
+            construct = "%s.%s" % (K.qualname, m)
+            defs = {}
+            for st in walk_no_nested(f.node):
+                if isinstance(st, ast.Assign) and len(st.targets) == 1 and isinstance(st.targets[0], ast.Name):
+                    defs.setdefault(st.targets[0].id, []).append(st.value)
+
+            def may_alias(name, depth=0):
+                out = set()
+                for d in defs.get(name, []):
+                    parts = [d.body, d.orelse] if isinstance(d, ast.IfExp) else [d]
+                    for e in parts:
+                        fl = field_of(e) if isinstance(e, ast.Attribute) else None
+                        if fl is not None:
+                            out.add("self.%s" % fl)
+                        elif isinstance(e, ast.Call) and isinstance(e.func, ast.Attribute) and dump(e.func.value) == "self" and e.func.attr in leaks:
+                            out |= {"self.%s (returned by reference from %s())" % (x, e.func.attr) for x in leaks[e.func.attr]}
+                        elif isinstance(e, ast.Name) and depth < 4:
+                            out |= may_alias(e.id, depth + 1)
+                return out
+            bad = False
+            for st in walk_no_nested(f.node):
+                tgt = None
+                if isinstance(st, ast.AugAssign):
+                    tgt = st.target
+                elif isinstance(st, ast.Assign) and isinstance(st.targets[0], ast.Subscript):
+                    tgt = st.targets[0]
+                base = tgt
+                while isinstance(base, ast.Subscript):
+                    base = base.value
+                if tgt is not None and isinstance(base, ast.Name):
+                    al = may_alias(base.id)
+                    if al:
+                        rep.violate("R5-purity", construct, "`%s` updates in place a value that can be %s: calling the statistic changes the object's scaling parameters, and every later "
+                                    "unscale / statistic / taxa operation is wrong" % (dump(st)[:40], sorted(al)[0]), where(f, st), "a fresh array (e.g. out = out * out)", dump(st)[:40])
+                        bad = True
+            if not bad:
+                rep.ok("R5-purity", construct, "no in-place update of a value that may alias location / scale / matrix")
+    rep.floor("R5-purity", 6)
+
+
 def run(prog, rep, tier):
     rep.explanation = ("Algebraic normal-form proof that unscale o from_numpy is the identity (with the 0 -> 1 scale substitution ahead of the division and a two-pass "
                        "standard deviation), RAW/SCALED unit typing of the taxa operations through the field-flow evaluator, invariant restoration of mutators, "
@@ -280,3 +397,5 @@ def run(prog, rep, tier):
         check_inverse(prog, rep, K)
         check_units(prog, rep, K)
         check_statistics(prog, rep, K)
+    check_guard_order(prog, rep)
+    check_stat_purity(prog, rep)
